@@ -189,20 +189,23 @@ class Impl:
         self.added_by_listener = []     # (obj, name, spec): add_trait calls made by trait_added listeners
 
     def gov(self, o, name):
-        return tag_of(o._trait(name, 0))
+        # unbound: a generated trait or instance value must never be able to shadow the API the driver uses
+        from traits.has_traits import HasTraits
+        return tag_of(HasTraits._trait(o, name, 0))
 
     def listener(self, prefix, spec):
+        from traits.has_traits import HasTraits
         log = self.added_by_listener
 
         def on_trait_added(obj, tname, new):
             if isinstance(new, str) and new.startswith(prefix):
-                obj.add_trait(new, mk_trait(spec))
+                HasTraits.add_trait(obj, new, mk_trait(spec))
                 log.append((obj, new, spec))
         return on_trait_added
 
     def apply(self, words):
         """-> (output, info) ; info carries what the oracle may look at."""
-        from traits.has_traits import MetaHasTraits
+        from traits.has_traits import MetaHasTraits, HasTraits
         k = words[0]
         if k == "cls":
             _, cn, bases, decls = words
@@ -249,14 +252,14 @@ class Impl:
                 delattr(o, name)
                 r = "ok"
             elif k == "add":
-                o.add_trait(name, mk_trait(words[3]))
+                HasTraits.add_trait(o, name, mk_trait(words[3]))
                 r = "ok"
             elif k == "rem":
-                r = "bool " + ("T" if o.remove_trait(name) else "F")
+                r = "bool " + ("T" if HasTraits.remove_trait(o, name) else "F")
             elif k == "trt":
-                r = "trait " + tag_of(o._trait(name, int(words[3])))
+                r = "trait " + tag_of(HasTraits._trait(o, name, int(words[3])))
             elif k == "hook":
-                o.on_trait_change(self.listener(name, words[3]), "trait_added")
+                HasTraits.on_trait_change(o, self.listener(name, words[3]), "trait_added")
                 r = "ok"
             else:
                 return "bad-op", None
@@ -467,6 +470,29 @@ DEFAULTS = {"Any": [None, "i3", "sd", "n"], "Int": [None, "i5", "i0"], "Str": [N
             "Dis": [None], "Py": [None]}
 
 
+_API_NAMES = None
+
+
+def api_names():
+    """Attributes of HasTraits / CHasTraits (methods, class attributes).  Declaring a trait of such a name, or
+    assigning an instance value to it, shadows the API traits itself calls (`self._trait(...)`, ...): user error
+    outside the property (TRUSTED: generated names never collide with HasTraits attributes)."""
+    global _API_NAMES
+    if _API_NAMES is None:
+        from traits.has_traits import HasTraits
+        _API_NAMES = frozenset(dir(HasTraits))
+    return _API_NAMES
+
+
+def safe_attr(a):
+    """A declaration name / accessed name that does not collide with the HasTraits API (wildcards: their stem too,
+    since a write through the wildcard stores an instance value of that name)."""
+    api = api_names()
+    while a in api or a.rstrip("_") in api and a.rstrip("_") != "":
+        a = a.rstrip("_") + "q" + ("_" if a.endswith("_") else "")
+    return a
+
+
 def rand_spec(rng, tag, kinds=KINDS):
     k = rng.choice(kinds)
     dv = rng.choice(DEFAULTS[k])
@@ -514,7 +540,7 @@ def related_names(rng, attrs):
 def rand_name(rng, attrs):
     r = rng.random()
     if attrs and r < 0.55:
-        return rng.choice(related_names(rng, attrs))
+        return safe_attr(rng.choice(related_names(rng, attrs)))
     if r < 0.85:
         return rng.choice(alpha_names(4))
     return rng.choice(EXTRA_NAMES)
@@ -559,7 +585,7 @@ def random_history(rng, late_subclass=False):
             target = rng.choice(names)
             if rng.random() < 0.6 and target and all(ch in "abcdefghijklmnopqrstuvwxyz_" for ch in target):
                 # a wildcard (or, without the '_', an exact trait) made for a name the base may have resolved
-                picked[0] = target[:rng.randint(1, len(target))] + rng.choice(["_", "_", ""])
+                picked[0] = safe_attr(target[:rng.randint(1, len(target))] + rng.choice(["_", "_", ""]))
             for a in dict.fromkeys(picked):
                 decls.append("%s=%s" % (a, rand_spec(rng, tag)))
                 tag += 1
